@@ -18,7 +18,9 @@ from typing import Optional
 
 from vivarium.core.registry import divider_registry, serializer_registry, updater_registry
 from vivarium.core.process import ParallelProcess, Process
-from vivarium.library.dict_utils import deep_compare, deep_merge, deep_merge_check, MULTI_UPDATE_KEY
+from vivarium.library.dict_utils import (
+    deep_compare, deep_merge, deep_merge_check, MULTI_UPDATE_KEY,
+    _copy_nested_dicts)
 from vivarium.library.topology import dict_to_paths, get_in
 from vivarium.core.types import Processes, Topology, State, Steps, Flow
 from vivarium.core.serialize import QuantitySerializer
@@ -1412,8 +1414,11 @@ class Store:
 
             # get the daughter processes
             if 'processes' in daughter or 'steps' in daughter:
-                processes = daughter['processes']
-                deep_merge_check(processes, daughter.get('steps', {}))
+                # (merged into a copy: the daughter record belongs to
+                # the caller's update)
+                processes = deep_merge_check(
+                    _copy_nested_dicts(daughter.get('processes', {})),
+                    daughter.get('steps', {}))
             else:
                 # if no processes provided, copy the mother's processes
                 mother_processes = self.get_path(mother_path).get_processes()
